@@ -8,7 +8,7 @@
 
    The tokenizer is the leftmost-first (Go regexp / RE2 submatch) semantics of
 
-      optional group: a name [^\s=]+ followed by = ; then one of three value alternatives, in this order:
+      optional group: a name [^\s=Q]+ followed by = ; then one of three value alternatives, in this order:
         Q ( \Q | [^Q] )* Q        double-quoted, backslash-quote preferred over a plain character
         ` ( \Q | [^Q]* ) `        back-tick form
         [^Q\s]+                   bare run                  (Q = the double quote character)
@@ -90,7 +90,8 @@ Definition v2 (s : la) : option (la * la) :=
   end.
 
 Definition not_q_sp (x : ascii) : bool := negb (aeq x dq) && negb (is_space x).
-Definition not_sp_eq (x : ascii) : bool := negb (is_space x) && negb (aeq x eqc).
+(* the name class [^\s=Q]: since ff6cf28 a name cannot contain a double quote *)
+Definition not_sp_eq (x : ascii) : bool := negb (is_space x) && negb (aeq x eqc) && negb (aeq x dq).
 
 Definition bare (s : la) : option (la * la) :=
   let '(run, rest) := span not_q_sp s in
@@ -121,9 +122,8 @@ Definition token (s : la) : option (la * la * la) :=
   | _, _ => unnamed
   end.
 
-(* post-processing: strings.Trim(value, quote) strips ALL outer quotes, then ReplaceAll(backslash-quote -> quote) *)
-Fixpoint trim_l (s : la) : la := match s with c :: r => if aeq c dq then trim_l r else s | [] => [] end.
-Definition trim_q (s : la) : la := rev (trim_l (rev (trim_l s))).
+(* post-processing of a double-quoted match: exactly the two delimiting quotes are stripped (0f1faec; the match
+   of the quoted alternative starts and ends with one), then ReplaceAll(backslash-quote -> quote) *)
 Fixpoint unescape (s : la) : la :=
   match s with
   | [] => []
@@ -134,7 +134,7 @@ Fixpoint unescape (s : la) : la :=
       end
   end.
 Definition post (v : la) : la :=
-  match v with c :: _ => if aeq c dq then unescape (trim_q v) else v | [] => v end.
+  match v with c :: r => if aeq c dq then unescape (removelast r) else v | [] => v end.
 
 (* FindAllStringSubmatch: successive leftmost matches; `skip` characters belong to the previous match.
    Structural in s - no fuel. *)
@@ -237,27 +237,18 @@ Definition last_is (c : ascii) (v : la) : bool := head_is c (rev v).
 
 (* a bare word: non-empty, no white space, no double quote, not starting with a back-tick *)
 Definition word_ok (v : la) : bool := nonempty v && forallb not_q_sp v && negb (head_is bt v).
-(* a name: non-empty, no white space, no = *)
+(* a name: non-empty, no white space, no =, no double quote *)
 Definition name_ok (n : la) : bool := nonempty n && forallb not_sp_eq n.
 (* a positional bare word is read as NAME=value as soon as an = follows a non-empty prefix *)
 Definition no_inner_eq (v : la) : bool := head_is eqc v || forallb (fun x => negb (aeq x eqc)) v.
-(* quoted text: anything (spaces, =, quotes, back-ticks, backslashes, any byte) that does not END
-   with a quote or a backslash *)
-Definition qval_ok (v : la) : bool := negb (last_is dq v) && negb (last_is bs v).
-(* an unnamed quoted value is split as NAME=value when its first white-space-or-= character is an =
-   that is directly followed by something the value group can start with *)
-Fixpoint head_ok (v : la) : bool :=
-  match v with
-  | [] => true
-  | c :: r => if is_space c then true
-              else if aeq c eqc then match r with s :: _ => is_space s | [] => false end
-              else head_ok r
-  end.
+(* quoted text: anything (spaces, =, quotes anywhere, back-ticks, backslashes, any byte, empty) that does not END
+   with a backslash - the grammar has no way to write a backslash before the closing quote *)
+Definition qval_ok (v : la) : bool := negb (last_is bs v).
 
 Definition v0_item (it : item) : bool :=
   match it with
   | IWord v => word_ok v && no_inner_eq v
-  | IQuoted v => qval_ok v && head_ok v
+  | IQuoted v => qval_ok v
   | INamed n v => name_ok n && word_ok v
   | INamedQ n v => name_ok n && qval_ok v
   end.
